@@ -1,8 +1,7 @@
 package main
 
-// Helpers for the C16 (streams) rules: value leaves through phis and local
-// result cells with the branch facts known on each incoming edge, tiny linear
-// normaliser for integer expressions, error-value facts.
+// Value-level helpers for the C16 (streams) rules; the graph-level ones are in
+// c16graph.go.
 
 import (
 	"go/token"
@@ -62,158 +61,6 @@ func c16IsGlobalLoad(v ssa.Value, pkgPath, name string) bool {
 	return false
 }
 
-// c16EdgeConds returns the branch facts known on the CFG edge from->to:
-// those of dominating edges of from, plus from's own branch if it ends in If.
-func c16EdgeConds(from, to *ssa.BasicBlock) []DomCond {
-	out := append([]DomCond(nil), domConds(from)...)
-	if n := len(from.Instrs); n > 0 {
-		if ifi, ok := from.Instrs[n-1].(*ssa.If); ok && from.Succs[0] != from.Succs[1] {
-			if from.Succs[0] == to {
-				out = append(out, DomCond{ifi, true})
-			} else if from.Succs[1] == to {
-				out = append(out, DomCond{ifi, false})
-			}
-		}
-	}
-	return out
-}
-
-// c16Leaf is one possible origin of a value at a program point, with the
-// branch facts known on the path segment that selected it and the phi values
-// it passed through (facts about those apply to the leaf on that path).
-type c16Leaf struct {
-	Val   ssa.Value
-	Conds []DomCond
-	Via   []ssa.Value
-	Pos   token.Pos
-}
-
-// c16Leaves expands v through phis and through loads of local cells (named
-// results of functions with defer are Alloc cells) to its origins.
-func c16Leaves(v ssa.Value) []c16Leaf {
-	var out []c16Leaf
-	seen := map[ssa.Value]bool{}
-	var walk func(v ssa.Value, conds []DomCond, via []ssa.Value, depth int)
-	walk = func(v ssa.Value, conds []DomCond, via []ssa.Value, depth int) {
-		if depth > 12 {
-			out = append(out, c16Leaf{Val: v, Conds: conds, Via: via})
-			return
-		}
-		switch x := v.(type) {
-		case *ssa.Phi:
-			if seen[x] {
-				return
-			}
-			seen[x] = true
-			for i, e := range x.Edges {
-				pred := x.Block().Preds[i]
-				nc := append(append([]DomCond(nil), conds...), c16EdgeConds(pred, x.Block())...)
-				walk(e, nc, append(append([]ssa.Value(nil), via...), x), depth+1)
-			}
-			seen[x] = false
-			return
-		case *ssa.UnOp:
-			if cell, ok := x.X.(*ssa.Alloc); ok && x.Op == token.MUL && !cell.Heap {
-				if seen[x] {
-					return
-				}
-				seen[x] = true
-				for _, st := range c16ReachingStores(cell, x) {
-					nc := append(append([]DomCond(nil), conds...), domConds(st.Block())...)
-					walk(st.Val, nc, append(append([]ssa.Value(nil), via...), x), depth+1)
-				}
-				seen[x] = false
-				return
-			}
-		}
-		out = append(out, c16Leaf{Val: v, Conds: conds, Via: via})
-	}
-	walk(v, nil, nil, 0)
-	return out
-}
-
-// c16ReachingStores: the stores to the local cell that may reach the load.
-func c16ReachingStores(cell *ssa.Alloc, load ssa.Instruction) []*ssa.Store {
-	var out []*ssa.Store
-	seenB := map[*ssa.BasicBlock]bool{}
-	var scan func(b *ssa.BasicBlock, from int)
-	scan = func(b *ssa.BasicBlock, from int) {
-		for i := from; i >= 0; i-- {
-			if st, ok := b.Instrs[i].(*ssa.Store); ok && st.Addr == cell {
-				out = append(out, st)
-				return
-			}
-		}
-		for _, p := range b.Preds {
-			if !seenB[p] {
-				seenB[p] = true
-				scan(p, len(p.Instrs)-1)
-			}
-		}
-	}
-	scan(load.Block(), instrIndex(load)-1)
-	return out
-}
-
-// c16ReturnLeaves: for every reachable return of fn, the leaves of result i,
-// each with the facts of the return block added.
-type c16Ret struct {
-	Ret    *ssa.Return
-	Leaves []c16Leaf
-}
-
-func c16ReturnLeaves(fn *ssa.Function, i int) []c16Ret {
-	var out []c16Ret
-	for _, b := range fn.Blocks {
-		if len(b.Instrs) == 0 || (len(b.Preds) == 0 && b.Index != 0) {
-			continue // unreachable (recover block)
-		}
-		ret, ok := b.Instrs[len(b.Instrs)-1].(*ssa.Return)
-		if !ok || i >= len(ret.Results) {
-			continue
-		}
-		var ls []c16Leaf
-		sets := c16CondSets(b, 4)
-		for _, lf := range c16Leaves(ret.Results[i]) {
-			for _, set := range sets {
-				l2 := lf
-				l2.Conds = append(append([]DomCond(nil), lf.Conds...), set...)
-				if c16Contradictory(l2.Conds) {
-					continue // infeasible combination of value origin and path into the return
-				}
-				ls = append(ls, l2)
-			}
-		}
-		out = append(out, c16Ret{ret, ls})
-	}
-	return out
-}
-
-// c16Lin normalises an integer expression to base+offset where base is
-// classified by the callback (e.g. "len", "N", "cnt").
-func c16Lin(v ssa.Value, base func(ssa.Value) string) (string, int64, bool) {
-	v = c16Unconv(v)
-	if b := base(v); b != "" {
-		return b, 0, true
-	}
-	if bo, ok := v.(*ssa.BinOp); ok && (bo.Op == token.ADD || bo.Op == token.SUB) {
-		if k, ok := c16IntConst(bo.Y); ok {
-			if b, off, ok := c16Lin(bo.X, base); ok {
-				if bo.Op == token.ADD {
-					return b, off + k, true
-				}
-				return b, off - k, true
-			}
-		}
-		if k, ok := c16IntConst(bo.X); ok && bo.Op == token.ADD {
-			if b, off, ok := c16Lin(bo.Y, base); ok {
-				return b, off + k, true
-			}
-		}
-	}
-	return "", 0, false
-}
-
 func c16IntConst(v ssa.Value) (int64, bool) {
 	v = c16Unconv(v)
 	if c, ok := v.(*ssa.Const); ok && c.Value != nil {
@@ -231,31 +78,6 @@ type c16Rel struct {
 	K    int64
 }
 
-// c16Rels decodes the integer comparison facts among conds.
-func c16Rels(conds []DomCond, base func(ssa.Value) string) []c16Rel {
-	var out []c16Rel
-	for _, dc := range conds {
-		cmp, ok := decodeCond(dc.If.Cond, dc.Branch)
-		if !ok {
-			continue
-		}
-		xb, xo, xok := c16Lin(cmp.X, base)
-		yb, yo, yok := c16Lin(cmp.Y, base)
-		xk, xc := c16IntConst(cmp.X)
-		yk, yc := c16IntConst(cmp.Y)
-		switch {
-		case xok && yok:
-			// xb+xo op yb+yo  =>  xb - yb op yo-xo
-			out = append(out, c16Rel{xb, yb, cmp.Op, yo - xo})
-		case xok && yc:
-			out = append(out, c16Rel{xb, "", cmp.Op, yk - xo})
-		case yok && xc:
-			out = append(out, c16Rel{yb, "", c16Flip(cmp.Op), xk - yo})
-		}
-	}
-	return out
-}
-
 func c16Flip(op token.Token) token.Token {
 	switch op {
 	case token.LSS:
@@ -270,7 +92,7 @@ func c16Flip(op token.Token) token.Token {
 	return op
 }
 
-// c16ImpliesLE: the fact `v op K` implies v <= bound.
+// impliesLE: the fact `v op K` implies v <= bound.
 func (r c16Rel) impliesLE(bound int64) bool {
 	switch r.Op {
 	case token.LEQ, token.EQL:
@@ -303,199 +125,7 @@ func (r c16Rel) excludes(k int64) bool {
 	return r.impliesLE(k-1) || r.impliesGE(k+1)
 }
 
-// c16ErrFacts: what the conds say about error value e (or one of its aliases).
+// c16ErrFacts: what branch facts say about an error value.
 type c16ErrFacts struct {
 	NonNil, Nil, NotEOF, IsEOF bool
-}
-
-func c16FactsAbout(conds []DomCond, vals []ssa.Value) c16ErrFacts {
-	var f c16ErrFacts
-	is := func(v ssa.Value) bool {
-		v = c16Unconv(v)
-		for _, w := range vals {
-			if c16Unconv(w) == v {
-				return true
-			}
-		}
-		return false
-	}
-	for _, dc := range conds {
-		if cmp, ok := decodeCond(dc.If.Cond, dc.Branch); ok && (cmp.Op == token.EQL || cmp.Op == token.NEQ) {
-			x, y := cmp.X, cmp.Y
-			if !is(x) {
-				x, y = y, x
-			}
-			if !is(x) {
-				continue
-			}
-			eq := cmp.Op == token.EQL
-			switch {
-			case isNilConst(y):
-				if eq {
-					f.Nil, f.NotEOF = true, true
-				} else {
-					f.NonNil = true
-				}
-			case c16IsGlobalLoad(y, "io", "EOF"):
-				if eq {
-					f.IsEOF, f.NonNil = true, true
-				} else {
-					f.NotEOF = true
-				}
-			default:
-				if _, isGlobal := c16Unconv(y).(*ssa.UnOp); isGlobal && eq {
-					f.NonNil = true // equal to some sentinel
-				}
-			}
-			continue
-		}
-		if call, truth, ok := boolCallCond(dc.If.Cond, dc.Branch); ok && callIs(call, "errors", "", "Is") && len(call.Call.Args) == 2 && is(call.Call.Args[0]) {
-			if truth {
-				f.NonNil = true
-				if c16IsGlobalLoad(call.Call.Args[1], "io", "EOF") {
-					f.IsEOF = true
-				}
-			} else if c16IsGlobalLoad(call.Call.Args[1], "io", "EOF") {
-				f.NotEOF = true
-			}
-		}
-	}
-	return f
-}
-
-// c16InvokeOn: in is a call of method `name` (interface invoke or static) whose
-// receiver value satisfies recv.
-func c16InvokeOn(in ssa.Instruction, name string, recv func(ssa.Value) bool) (ssa.CallInstruction, bool) {
-	ci, ok := in.(ssa.CallInstruction)
-	if !ok {
-		return nil, false
-	}
-	cc := ci.Common()
-	if cc.IsInvoke() {
-		if cc.Method.Name() == name && recv(cc.Value) {
-			return ci, true
-		}
-		return nil, false
-	}
-	if f := staticCallee(ci); f != nil && f.Name() == name && f.Signature.Recv() != nil && len(cc.Args) > 0 && recv(cc.Args[0]) {
-		return ci, true
-	}
-	return nil, false
-}
-
-// c16CallArgs returns the arguments without the receiver.
-func c16CallArgs(ci ssa.CallInstruction) []ssa.Value {
-	cc := ci.Common()
-	if cc.IsInvoke() {
-		return cc.Args
-	}
-	if f := staticCallee(ci); f != nil && f.Signature.Recv() != nil && len(cc.Args) > 0 {
-		return cc.Args[1:]
-	}
-	return cc.Args
-}
-
-// c16IsCloserAssertOf: v is the value result of a type assertion to an
-// interface with a Close method (io.Closer, io.ReadCloser, ...) of a value
-// satisfying src; returns the TypeAssert.
-func c16CloserAssert(v ssa.Value) *ssa.TypeAssert {
-	v = c16Unconv(v)
-	if ex, ok := v.(*ssa.Extract); ok && ex.Index == 0 {
-		if ta, ok := ex.Tuple.(*ssa.TypeAssert); ok && ta.CommaOk {
-			return ta
-		}
-	}
-	if ta, ok := v.(*ssa.TypeAssert); ok && !ta.CommaOk {
-		return ta
-	}
-	return nil
-}
-
-// c16AssertOkEdge: the edge from->to is a branch on the ok result of a
-// comma-ok type assertion; returns the assertion and the truth of ok.
-func c16AssertOkEdge(from, to *ssa.BasicBlock) (*ssa.TypeAssert, bool, bool) {
-	n := len(from.Instrs)
-	if n == 0 || from.Succs == nil || len(from.Succs) != 2 || from.Succs[0] == from.Succs[1] {
-		return nil, false, false
-	}
-	ifi, ok := from.Instrs[n-1].(*ssa.If)
-	if !ok {
-		return nil, false, false
-	}
-	branch := from.Succs[0] == to
-	cond := ifi.Cond
-	for {
-		if u, ok := cond.(*ssa.UnOp); ok && u.Op == token.NOT {
-			cond, branch = u.X, !branch
-			continue
-		}
-		break
-	}
-	if ex, ok := cond.(*ssa.Extract); ok && ex.Index == 1 {
-		if ta, ok := ex.Tuple.(*ssa.TypeAssert); ok && ta.CommaOk {
-			return ta, branch, true
-		}
-	}
-	return nil, false, false
-}
-
-// c16EdgeCond: the If fact of the edge itself (not the dominating ones).
-func c16EdgeCond(from, to *ssa.BasicBlock) (DomCond, bool) {
-	n := len(from.Instrs)
-	if n == 0 || len(from.Succs) != 2 || from.Succs[0] == from.Succs[1] {
-		return DomCond{}, false
-	}
-	ifi, ok := from.Instrs[n-1].(*ssa.If)
-	if !ok {
-		return DomCond{}, false
-	}
-	return DomCond{ifi, from.Succs[0] == to}, true
-}
-
-// c16OnCycle: block b lies on a CFG cycle.
-func c16OnCycle(b *ssa.BasicBlock) bool {
-	for _, s := range b.Succs {
-		if reachableFrom(s, nil)[b] {
-			return true
-		}
-	}
-	return false
-}
-
-// c16CondSets returns, for block b, one set of branch facts per backward path
-// prefix into b (joins are split per predecessor, up to depth levels): every
-// real path into b satisfies at least one of the sets.
-func c16CondSets(b *ssa.BasicBlock, depth int) [][]DomCond {
-	if len(b.Preds) <= 1 || depth == 0 {
-		return [][]DomCond{domConds(b)}
-	}
-	var out [][]DomCond
-	for _, p := range b.Preds {
-		if b.Dominates(p) { // back edge: do not unroll
-			out = append(out, domConds(b))
-			continue
-		}
-		var own []DomCond
-		if dc, ok := c16EdgeCond(p, b); ok {
-			own = append(own, dc)
-		}
-		for _, set := range c16CondSets(p, depth-1) {
-			out = append(out, append(append([]DomCond(nil), set...), own...))
-		}
-	}
-	return out
-}
-
-// c16Contradictory: the facts contain both outcomes of one If that is not in a
-// loop (inside a loop both outcomes can be true of different iterations).
-func c16Contradictory(conds []DomCond) bool {
-	seen := map[*ssa.If]bool{}
-	val := map[*ssa.If]bool{}
-	for _, dc := range conds {
-		if seen[dc.If] && val[dc.If] != dc.Branch && !c16OnCycle(dc.If.Block()) {
-			return true
-		}
-		seen[dc.If], val[dc.If] = true, dc.Branch
-	}
-	return false
 }
